@@ -79,8 +79,9 @@ pub fn run_fuzz(case: &J, out: &mut Out) {
             if n > 200 {
                 break;
             }
-            let r = guarded(|| tau_engine::core::parser::parse_identifier(y).is_ok());
-            out.ev(json!({"ev":"core","f":"parse_identifier","out": match r { Ok(true) => "ok", Ok(false) => "err", Err(()) => "panic" }}));
+            let yc = y.clone();
+            let r = timed(move || tau_engine::core::parser::parse_identifier(&yc).is_ok());
+            out.ev(json!({"ev":"core","f":"parse_identifier","out": r}));
             match y {
                 serde_yaml::Value::Mapping(m) => {
                     for (k, v) in m {
@@ -91,11 +92,11 @@ pub fn run_fuzz(case: &J, out: &mut Out) {
                 serde_yaml::Value::Sequence(s) => nodes.extend(s.iter()),
                 serde_yaml::Value::String(s) => {
                     let s1 = s.clone();
-                    let r = guarded(move || s1.into_identifier().is_ok());
-                    out.ev(json!({"ev":"core","f":"into_identifier","out": match r { Ok(true) => "ok", Ok(false) => "err", Err(()) => "panic" }}));
+                    let r = timed(move || s1.into_identifier().is_ok());
+                    out.ev(json!({"ev":"core","f":"into_identifier","out": r}));
                     let s2 = s.clone();
-                    let r = guarded(move || s2.tokenise().is_ok());
-                    out.ev(json!({"ev":"core","f":"tokenise","out": match r { Ok(true) => "ok", Ok(false) => "err", Err(()) => "panic" }}));
+                    let r = timed(move || s2.tokenise().is_ok());
+                    out.ev(json!({"ev":"core","f":"tokenise","out": r}));
                 }
                 _ => {}
             }
